@@ -203,6 +203,7 @@ func (c *Cluster) opTick(s *Step) {
 		}
 		if a.running() {
 			a.node.SimCheckSuspend()
+			c.checkSuspendRule(a, _state.Babbling)
 		}
 	case _state.CatchingUp:
 		c.net.legs = map[string]string{"ff": s.Pull}
